@@ -139,7 +139,7 @@ pub fn run(ctx: &Ctx) -> Outcome {
          (iii) rendered programs with 1-8 character mutations concentrated around literals; (iv) targeted: backslash before LF/CRLF/EOF, multi-byte char after backslash, unterminated and 65533..65536-byte literals, 20-50 digit numbers; \
          oracle: parse_ast does not unwind; an error has a span list with every span start<=end<=len(input); non-trivial = input has a quote, a backslash, a non-ASCII char, or is a mutated program; distinct by input text",
     );
-    let cfg = TapeCfg::new(ctx, 20_000, 1_500_000, 1200);
+    let cfg = TapeCfg::new(ctx, 20_000, 400_000, 1200);
     out.shards = cfg.shards;
     out.absorb(tape_search(ctx, "tape", &cfg, check, describe));
     // proptest's own string strategies
